@@ -141,5 +141,64 @@ def run_python(sim_cls, regs, fields, mem, ins, tracers, config=None):
     return PySim(sim_cls, config).step(regs, fields, mem, ins, tracers)
 
 
+class CSim:
+    """Reusable wrapper around a C simulator class (48K bytearray memory).  Observes the final
+    memory (diff against the initial image) rather than the write sequence."""
+
+    def __init__(self, sim_cls, config=None):
+        self.sim = sim_cls([0] * 65536, config=dict(config) if config else None)
+        self.memory = self.sim.memory
+        self.dirty = set()
+
+    def step(self, regs, fields, mem, ins, tracers):
+        memory, sim = self.memory, self.sim
+        for a in self.dirty:
+            memory[a] = 0
+        for a, v in mem.items():
+            memory[a] = v
+        before = bytes(memory)
+        for i, v in enumerate(regs):
+            sim.registers[i] = v
+        for i, v in enumerate(fields):
+            sim.registers[24 + i] = v
+        tr = Tracer(ins)
+        t = PartialTracer()
+        has_in = tracers[0] or tracers[1] or tracers[2]
+        if has_in:
+            t.read_port = tr.read_port
+        if tracers[3]:
+            t.write_port = tr.write_port
+        sim.set_tracer(t, bool(tracers[1]), bool(tracers[2]))
+        try:
+            sim.run(fields[0])
+        except Exception as e:
+            return f'exception {type(e).__name__}: {e}'
+        after = bytes(memory)
+        diffs = []
+        if after != before:
+            for base in range(0, 65536, 1024):
+                if after[base:base + 1024] != before[base:base + 1024]:
+                    diffs += [(a, after[a]) for a in range(base, base + 1024) if after[a] != before[a]]
+        self.dirty = set(mem) | {a for a, _ in diffs}
+        r = list(sim.registers)
+        return (f"{' '.join(map(str, r[:24]))} ; {' '.join(map(str, r[24:30]))} ; "
+                f"{' '.join(f'{p}:{v}' for p, v in tr.out_log)} ; {' '.join(map(str, tr.in_log))} ; "
+                f"{' '.join(f'{a}:{v}' for a, v in diffs)} ; 0")
+
+
+def final_diff(line, mem):
+    """Rewrite the write-sequence field of an output line as the final memory diff (sorted)."""
+    parts = line.split(';')
+    if len(parts) != 6:
+        return line
+    final = {}
+    for w in parts[4].split():
+        a, v = w.split(':')
+        final[int(a)] = int(v)
+    diffs = sorted((a, v) for a, v in final.items() if mem.get(a, 0) != v)
+    parts[4] = ' ' + ' '.join(f'{a}:{v}' for a, v in diffs) + ' '
+    return ';'.join(parts)
+
+
 def norm(line):
     return ' '.join(line.split())
